@@ -9,6 +9,20 @@ from . import common, elements, c17, rt
 
 PROP = 'C16'
 MOD = 'mirsym.checks.c16'
+# how the setup function and its first parameter are written (the property speaks of "the first parameter's declared type")
+SETUPS = {
+    'arrow': '(props: %s) => () => null',
+    'arrow-ctx': '(props: %s, ctx: any) => () => null',
+    'async-arrow': 'async (props: %s) => () => null',
+    'fn': 'function (props: %s) {{ return () => null; }}',
+    'fn-named': 'function Comp(props: %s, {{ slots }}: any) {{ return () => null; }}',
+    'obj-pat': '({{ ...rest }}: %s) => () => null',
+    'obj-pat-fn': 'function ({{ ...rest }}: %s) {{ return () => null; }}',
+    'default': '(props: %s = {{}}) => () => null',
+    'default-fn': 'function (props: %s = {{}}) {{ return () => null; }}',
+    'obj-pat-default': '({{ ...rest }}: %s = {{}}) => () => null',
+    'obj-pat-default-fn': 'function ({{ ...rest }}: %s = {{}}) {{ return () => null; }}',
+}
 MAPS = [['a'], ['a', 'b?'], ['a', 'q', 'b?'], ['m', 'g', 'a'], ['q?', 'm?', 'c'], ['b?', 'z?'], ['g', 'q']]
 
 
@@ -21,12 +35,12 @@ def make_skeleton(spec):
         return Skeleton('c16#%s|composed:%s|top' % (','.join(codes), lab), src, [], {'resolve_type': True}, tsx=True, meta={'family': 'c16/composed'})
     enc = [e for e in rt.encodings(codes) if e[0] == spec['enc']][0]
     name, before, texpr, after, expected = enc
-    call = ('export default ' if spec.get('scope') != 'local' else '') + 'defineComponent((props: %s) => () => null);' % texpr
+    call = ('export default ' if spec.get('scope') != 'local' else '') + 'defineComponent(%s);' % (SETUPS[spec.get('setup', 'arrow')] % texpr)
     shadow = ''
     if spec.get('scope') == 'local':
         shadow = 'interface P {{ shadowed: number }}\ntype PA = {{ shadowedA: number }};\ninterface Outer {{ p: {{ shadowedO: number }} }}\n'
     src = rt.module_src('EXPECT', expected, before, call, after, spec.get('scope', 'top'), shadow)
-    return Skeleton('c16#%s|%s|%s' % (','.join(codes), name, spec.get('scope', 'top')), src, [], {'resolve_type': True}, tsx=True, meta={'family': 'c16/' + name})
+    return Skeleton('c16#%s|%s|%s%s' % (','.join(codes), name, spec.get('scope', 'top'), '|setup:' + spec['setup'] if 'setup' in spec else ''), src, [], {'resolve_type': True}, tsx=True, meta={'family': 'c16/' + name})
 
 
 def oracle(env):
@@ -76,6 +90,13 @@ def jobs(tier):
             out.append({'map': mp, 'enc': e[0]})
             if e[0] in ('alias', 'interface', 'merged', 'extends', 'intersection', 'indexed', 'after-interface', 'partial', 'pick') and (tier != 'quick' or mp in (MAPS[1], MAPS[2])):
                 out.append({'map': mp, 'enc': e[0], 'scope': 'local'})
+    for mp in (MAPS[1], MAPS[2]) if tier == 'quick' else MAPS[:5]:
+        for enc in ('interface', 'alias', 'intersection') if tier == 'quick' else [e[0] for e in rt.encodings(mp) if not e[0].startswith(('after', 'merged-after'))]:
+            if enc not in [e[0] for e in rt.encodings(mp)]:
+                continue
+            for su in SETUPS:
+                if su != 'arrow':
+                    out.append({'map': mp, 'enc': enc, 'setup': su})
     import random
     rnd = random.Random(common.seed())
     for mp in ([MAPS[1], MAPS[2], MAPS[3]] if tier == 'quick' else MAPS[1:]):
@@ -105,7 +126,7 @@ def classify(v, detail):
 def main(argv):
     rep = common.Report(PROP)
     js = jobs(rep.tier)
-    rep.bounds = {'prop_maps': MAPS, 'encodings': [e[0] for e in rt.encodings(MAPS[2])], 'scopes': ['top level', 'inside a function, shadowing different top-level declarations of the same names']}
+    rep.bounds = {'prop_maps': MAPS, 'setup_function_forms': sorted(SETUPS), 'encodings': [e[0] for e in rt.encodings(MAPS[2])], 'scopes': ['top level', 'inside a function, shadowing different top-level declarations of the same names']}
     rep.assumptions = ['the expectation (prop map an encoding stands for) is carried in the module as a comment written by the generator']
     res = common.run_jobs('mirsym.checks.elements', 'run_family_job', js)
     raw = []
